@@ -83,7 +83,7 @@ def main():
         "version": 1,
         "setup_cmd": "./check --setup",
         "hooks": {"guard": "verif",
-                  "enable": "go build -tags verif in the harness module /verif/harness (replace => /repo); the vm trace hook is an add-only file hooks/vm_verif.go.txt injected with `go build -overlay` together with a copy of the current vm/vm.go that has one call inserted at the head of the eval loop; no file under /repo is edited",
+                  "enable": "go build -tags verif in the harness module /verif/harness (replace => /repo); the vm trace hook is an add-only file hooks/vm_verif.go.txt injected with `go build -overlay` together with a copy of the current vm/vm.go that has one call inserted at the head of the eval loop; hooks/module_verif.go.txt (attribute names of modules, C11) and hooks/repl_c18_test.go.txt (a verif-tagged test file of package cmd/risor/repl that drives the REPL's own evaluator, built with `go test -c -overlay` in the repository's workspace, C18) are injected the same way; no file under /repo is edited",
                   "baseline_off_cmd": "./tools/baseline.sh",
                   "source_commits": [],
                   "add_only": True},
